@@ -514,6 +514,37 @@ def rule_g(ctx: Context, R: Reporter):
     stateless_steps_rule(ctx, R, "C06.g", ("Resampler",), "the indices are valid for the weight vector but are applied to the rows of an earlier pool")
 
 
+def rule_h(ctx: Context, R: Reporter, syst: FuncInfo):
+    """C06.h  the number of draws requested from the systematic routine by the package itself is the length of the weight
+    vector it passes (or the configured particle count), and no caller decides the count through an identity test against
+    True / False: a flag that is truthy without being the literal singleton (numpy.bool_ from a comparison, np.all(..), 1)
+    takes the other branch of `flag is True`, and the public posterior then returns 1 draw instead of one per sample."""
+    n = 0
+    for fi in ctx.prog.functions.values():
+        sites = [c for (c, tg) in ctx.cg.sites.get(fi.qualname, []) if syst in [t for t in tg if isinstance(t, FuncInfo)]]
+        if not sites:
+            continue
+        n += len(sites)
+        for x in walk_no_nested(fi.node):
+            if isinstance(x, ast.Compare) and len(x.ops) == 1 and isinstance(x.ops[0], (ast.Is, ast.IsNot)) and isinstance(x.comparators[0], ast.Constant) and isinstance(x.comparators[0].value, bool):
+                R.check("C06.h", "the number of draws does not hinge on an identity test against a bool singleton", False, fi, x,
+                        msg=f"{fi.short}: `{unparse(x)}` in a routine that requests resampling draws: a truthy flag that is not the literal True (numpy.bool_, np.all(..), 1) takes the other branch, "
+                            f"so the count of returned indices is not the documented one", key=f"bool-identity:{fi.short}")
+        for c in sites:
+            size = call_arg(c, 0, "size")
+            w = call_arg(c, 1, "weights")
+            rs = ExprResolver(fi.node)
+            at = flow_of(fi.node).node_containing(c)
+            sz = rs.resolve(size, at) if (size is not None and at is not None) else size
+            txt = norm_text(sz) if sz is not None else ""
+            wt = norm_text(w) if w is not None else "?"
+            ok = txt in (f"len({wt})", f"{wt}.size", f"{wt}.shape[0]") or txt.endswith("n_particles") or (isinstance(sz, ast.Name) and sz.id in fi.params)
+            R.check("C06.h", f"{fi.short}: the requested number of draws is the length of the weight vector (or the configured particle count)", ok, fi, c,
+                    msg=f"{fi.short}: `{unparse(c)[:70]}` requests `{unparse(sz)[:50] if sz is not None else '?'}` draws: not the length of the weights it passes nor the particle count",
+                    key=f"draw-count:{fi.short}")
+    R.floor("C06.h", "internal call sites of the systematic routine", n, 2)
+
+
 def run(ctx: Context, R: Reporter):
     R.guard(rule_g, ctx, R)
     fi = systematic_fn(ctx)
@@ -523,6 +554,7 @@ def run(ctx: Context, R: Reporter):
     R.guard(rule_d, ctx, R, fi)
     R.guard(rule_e, ctx, R, fi)
     R.guard(rule_f, ctx, R, fi)
+    R.guard(rule_h, ctx, R, fi)
 
 
 def _vectorised_comb(expr: str, direct: bool = False):
@@ -556,6 +588,11 @@ def variants():
     tl = "tempest/tools.py"
     rs = "tempest/steps/resample.py"
     return [
+        Variant("h-draw-count-by-identity-with-true", "bad", replace_stmt("tempest/core.py", "SamplerCore.compute_posterior", "idx = systematic_resample(len(weights), weights)",
+                                                                          "n_draws = len(weights) if resample is True else int(resample)\nidx = systematic_resample(n_draws, weights)"), ["C06.h"], quick=True),
+        Variant("h-posterior-draws-particle-count-of-trimmed", "bad", replace_expr("tempest/core.py", "SamplerCore.compute_posterior", "systematic_resample(len(weights), weights)", "systematic_resample(len(weights) - 1, weights)"), ["C06.h"]),
+        Variant("h-benign-count-bound-first", "benign", replace_stmt("tempest/core.py", "SamplerCore.compute_posterior", "idx = systematic_resample(len(weights), weights)", "n_draws = len(weights)\nidx = systematic_resample(n_draws, weights)")),
+
         Variant("a-drop-bound", "bad", replace_expr(tl, "systematic_resample", "positions[i] > cumulative_sum and j < len(weights) - 1", "positions[i] > cumulative_sum"), ["C06.a"], quick=True),
         Variant("a-off-by-one-bound", "bad", replace_expr(tl, "systematic_resample", "j < len(weights) - 1", "j < len(weights)"), ["C06.a"], quick=True),
         Variant("a-le-bound", "bad", replace_expr(tl, "systematic_resample", "j < len(weights) - 1", "j <= len(weights) - 1"), ["C06.a"]),
